@@ -77,13 +77,13 @@ class Region:
             s.arr = z3.Store(s.full(), idx, bv(v, s.esz*8)); s.over = {}; s._full = s.arr
 
 class Obj:
-    __slots__ = ('size', 'cells', 'regions', 'name', 'zero', 'func', 'tok', 'freed', 'const')
+    __slots__ = ('size', 'cells', 'regions', 'name', 'zero', 'func', 'tok', 'freed', 'const', 'guard')
     def __init__(s, size, name=''):
         s.size = size; s.cells = {}; s.regions = []; s.name = name; s.zero = []; s.func = None; s.tok = None
-        s.freed = False; s.const = False
+        s.freed = False; s.const = False; s.guard = None      # guard: [(lo, hi, what)] byte ranges whose access is an array overrun
     def clone(s):
         o = Obj(s.size, s.name); o.cells = dict(s.cells); o.regions = [r.clone() for r in s.regions]
-        o.zero = list(s.zero); o.func = s.func; o.freed = s.freed; o.const = s.const; return o
+        o.zero = list(s.zero); o.func = s.func; o.freed = s.freed; o.const = s.const; o.guard = s.guard; return o
 
 class Frame:
     __slots__ = ('fn', 'env', 'bb', 'prev', 'ip', 'ret_to', 'inv', 'exc', 'code', 'allocas')
